@@ -9,6 +9,10 @@ Tie to /repo (C, hand-written model + correspondence):
     at K = Float and ALL final buffers (out, x, g, sigma, lower, upper) are compared, bit for
     bit where both sides perform the same IEEE operations, with a 1e-9 tolerance where an
     external routine (norm, exp, Lambert-W, pow) is involved.
+  * history stream: one operator instance per factory/flag/space receives 5 calls (aliased,
+    non-aliased, out-of-place, shuffled, at least two aliased) with different inputs; every
+    call is compared with a freshly built operator and with the model program run from a fresh
+    store (the straight-line programs are stateless; this stream ties that to the code);
   * the set of Operator classes of proximal_operators.py that take `out` is read from the AST
     and must be covered by the model's class table (and vice versa).
 Oracle (independent of the model, on the real code): P(x) vs y = x.copy(); P(y, out=y) vs
@@ -38,6 +42,9 @@ TRUSTED = ['hand-written model programs Model/ProxProg.lean (tied by running the
            'NumPy element-wise ufuncs with out identical to an input are well defined; '
            'space.lincomb obeys its specification (that is property C01)']
 ASSUMPTIONS = ['identity aliasing only (overlapping views of distinct objects are outside C10)',
+               'the _call bodies are stateless: a model program runs from a fresh store with fresh '
+               'temporaries; instance state kept between calls is outside the model and is tested by '
+               'the history stream (sequences of calls on one instance vs fresh instances)',
                'element-wise functions, norms, proj_simplex, Lambert-W are uninterpreted in the '
                'theorems; the driver instantiates them with IEEE double implementations',
                'wrappers built by operator arithmetic are covered by the combinator theorems '
@@ -667,6 +674,8 @@ def run_oracle_stream(ctx, gen, label):
         if problems:
             ctx.violation(key, '; '.join(problems)[:600],
                           {'kind': label, 'key': key, 'x': [float(v) for v in xv]})
+        elif st == 'ok':
+            repeated_alias(ctx, key, P, space, len(xv))
     if unavailable:
         ctx.extra.setdefault('not_constructible', {}).update(unavailable)
 
@@ -690,12 +699,116 @@ def prog_stream(ctx, reps):
     return lines, pending
 
 
+# ---------------------------------------------------------------------------
+# history stream: ONE operator instance receives a sequence of calls with different inputs.
+# The straight-line model programs are stateless (every run starts from a fresh store with
+# fresh temporaries); this stream is what ties that assumption to the code: each call of the
+# sequence is compared with a freshly built operator on the same input and with the model
+# program run from a fresh store.
+
+def history_stream(ctx, reps):
+    rng = ctx.rng
+    lines, pending = [], []
+    for plan in plans():
+        for kind in plan.kinds:
+            for rep in range(reps):
+                state = rng.getstate()
+                try:
+                    c = build(plan, kind, rng, 'gen')
+                    after = rng.getstate()
+                    rng.setstate(state)
+                    fresh_c = build(plan, kind, rng, 'gen')   # identical parameters, new instance
+                    rng.setstate(after)
+                except Exception:  # reported by the prog stream
+                    rng.setstate(state)
+                    rng.random()
+                    continue
+                space, P = c['space'], c['P']
+                N = c['n'] * c['mc']
+                modes = ['alias', 'alias', 'junk', 'oop'] + [rng.choice(['alias', 'junk'])]
+                rng.shuffle(modes)
+                ctx.hit('history/{}/{}'.format(plan.mid, plan.flags or '-'))
+                for k, mode in enumerate(modes):
+                    scale = rng.choice([1.0, 1.0, 8.0, 0.0625])
+                    xk = grid(rng, N) * scale
+                    if plan.mid == 'power' and c['par']['p'] not in (2.0, 3.0):
+                        xk = np.abs(xk) + 0.125
+                    x_elem = make_elem(space, xk)
+                    second = make_elem(space, c['bufs']['g']) if plan.mid == 'lincombOp' else None
+                    got = call_real(P, x_elem, mode, space, second)
+                    # a fresh instance for every comparison (it is called exactly once)
+                    st2 = rng.getstate()
+                    rng.setstate(state)
+                    try:
+                        ref_c = build(plan, kind, rng, 'gen')
+                    finally:
+                        rng.setstate(st2)
+                    sec2 = make_elem(space, c['bufs']['g']) if plan.mid == 'lincombOp' else None
+                    ref = call_real(ref_c['P'], make_elem(space, xk), 'oop', space, sec2)
+                    desc = dict(describe(dict(c, x=xk)), kind='history', call=k, mode=mode,
+                                modes=modes)
+                    key = 'history {} flags={} space={} call#{} mode={} after={}'.format(
+                        plan.mid, plan.flags or '-', kind, k, mode, ','.join(modes[:k]) or '-')
+                    nontrivial = ref[0] == 'ok' and np.any(ref[1] != 0) and \
+                        not np.array_equal(ref[1], xk)
+                    ctx.case(('history', plan.mid, plan.flags, kind, mode, k > 0)
+                             if nontrivial else None)
+                    if ref[0] != 'ok':
+                        continue
+                    if got[0] != 'ok':
+                        ctx.violation(key, 'call on the reused instance raises {} while a fresh '
+                                      'instance gives a result'.format(got[0]), desc)
+                        continue
+                    if not same(got[1], ref[1], True):
+                        bad = int(np.argmax(~np.isclose(got[1], ref[1], rtol=1e-9, atol=1e-12,
+                                                        equal_nan=True)))
+                        ctx.violation(key, 'call {} ({}) on an operator instance that was already '
+                                      'called {} differs from a freshly built operator at flat index '
+                                      '{}: got {!r}, fresh instance gives {!r}'.format(
+                                          k, mode, modes[:k], bad, float(got[1][bad]),
+                                          float(ref[1][bad])), desc)
+                    if mode != 'oop':
+                        ck = dict(c, x=xk)
+                        lines.append(model_line(ck, mode == 'alias', junk_vals(N)))
+                        pending.append((ck, desc, mode, got))
+    outs = core.run_driver('C10', lines)
+    for (ck, desc, mode, got), ans in zip(pending, outs):
+        if not ans.startswith('ok '):
+            ctx.disagree(desc, 'ok', ans[:200], stream='history')
+            continue
+        f = dict(t.split('=', 1) for t in ans.split()[1:])
+        mout = parse_bl(f['b0'] if mode == 'alias' else f['b1'])
+        if not same(mout, got[1], ck['plan'].tol):
+            ctx.disagree(desc, 'out = {}'.format([float(v) for v in got[1]][:8]),
+                         'out = {} (model program from a fresh store)'.format(mout[:8]),
+                         stream='history')
+
+
+def repeated_alias(ctx, key, P, space, n_inputs, frames_unused=None):
+    """Wrappers / functional-level proximals: two more aliased calls with new inputs on the
+    SAME instance, each compared with its own out-of-place result."""
+    rng = ctx.rng
+    for k in range(2):
+        xk = grid(rng, n_inputs) * rng.choice([1.0, 8.0, 0.125])
+        x_elem = make_elem(space, xk)
+        ref = call_real(P, x_elem, 'oop', space)
+        got = call_real(P, x_elem, 'alias', space)
+        if ref[0] != 'ok':
+            continue
+        if got[0] != 'ok' or not same(got[1], ref[1], True):
+            ctx.violation(key + ' repeated-alias#{}'.format(k + 2),
+                          'aliased call number {} on the same instance differs from P(x): {} vs {}'
+                          .format(k + 2, got[1][:6] if got[0] == 'ok' else got[0], ref[1][:6]),
+                          {'kind': 'repeat', 'key': key, 'x': [float(v) for v in xk]})
+
+
 def run(ctx):
     check_class_set(ctx)
     reps = 2 if ctx.quick else 40
     lines, pending = prog_stream(ctx, reps)
     outs = core.run_driver('C10', lines)
     compare_model(ctx, pending, outs)
+    history_stream(ctx, 1 if ctx.quick else 8)
     run_oracle_stream(ctx, wrapper_cases(ctx, 1 if ctx.quick else 10), 'wrapper')
     run_oracle_stream(ctx, functional_cases(ctx, 1 if ctx.quick else 10), 'functional')
 
@@ -720,6 +833,10 @@ def search(ctx, broken):
                     ctx.violation('prox {} flags={} space={} xclass={}'.format(
                         plan.mid, plan.flags or '-', kind, xclass), '; '.join(problems)[:600],
                         describe(c))
+    try:
+        history_stream(ctx, 6)
+    except core.DriverBroken:
+        pass
     run_oracle_stream(ctx, wrapper_cases(ctx, 6), 'wrapper')
     run_oracle_stream(ctx, functional_cases(ctx, 6), 'functional')
 
@@ -745,6 +862,22 @@ def replay(ctx, case):
         second = make_elem(c['space'], c['bufs']['g']) if plan.mid == 'lincombOp' else None
         _, problems = oracle(ctx, None, None, c['P'], x_elem, c['space'], plan.tol, second)
         return '; '.join(problems) if problems else None
+    if case.get('kind') in ('history', 'repeat'):
+        import random
+        sub = core.Ctx('C10', 'quick', 0)
+        sub.rng = random.Random(0)
+        if case['kind'] == 'history':
+            try:
+                history_stream(sub, 3)
+            except core.DriverBroken:
+                pass
+            hits = [v for v in sub.violations if v['replay'].get('id') == case.get('id') and
+                    v['replay'].get('flags') == case.get('flags')]
+        else:
+            run_oracle_stream(sub, wrapper_cases(sub, 2), 'wrapper')
+            run_oracle_stream(sub, functional_cases(sub, 2), 'functional')
+            hits = [v for v in sub.violations if v['replay'].get('key') == case.get('key')]
+        return hits[0]['what'] if hits else None
     if case.get('kind') in ('wrapper', 'functional'):
         gen = wrapper_cases(ctx, 3) if case['kind'] == 'wrapper' else functional_cases(ctx, 3)
         for key, mk, space, xv, frames in gen:
